@@ -86,6 +86,7 @@ def run(ctx):
     broken = ctx.audit(THEOREMS)
     rng = ctx.rng
     g = R.Gen(rng, T)
+    g.real = True           # fields that carry a keyword (queue type, socket type, bus ...) take real values half of the time
     n = 5000 if ctx.tier == 'quick' else 120000
 
     def gen_lists(count, kinds=None, allow_odd=True):
